@@ -2,6 +2,7 @@ package electra
 
 import (
 	"encoding/json"
+	"fmt"
 
 	"github.com/protolambda/zrnt/eth2/beacon/common"
 	"github.com/protolambda/ztyp/codec"
@@ -50,11 +51,20 @@ func AttesterSlashingType(spec *common.Spec) *ContainerTypeDef {
 type AttesterSlashings []AttesterSlashing
 
 func (a *AttesterSlashings) Deserialize(spec *common.Spec, dr *codec.DecodingReader) error {
-	return dr.List(func() codec.Deserializable {
+	start, scope := len(*a), dr.Scope()
+	if err := dr.List(func() codec.Deserializable {
 		i := len(*a)
 		*a = append(*a, AttesterSlashing{})
 		return spec.Wrap(&((*a)[i]))
-	}, 0, uint64(spec.MAX_ATTESTER_SLASHINGS_ELECTRA))
+	}, 0, uint64(spec.MAX_ATTESTER_SLASHINGS_ELECTRA)); err != nil {
+		return err
+	}
+	// dr.List does not decode an element whose span is empty, it leaves a zero value in place.
+	// An attester slashing is never empty: then the decoded list does not account for the given bytes.
+	if got := (*a)[start:].ByteLength(spec); got != scope {
+		return fmt.Errorf("list of %d bytes decodes to elements of %d bytes: element with an empty span", scope, got)
+	}
+	return nil
 }
 
 func (a AttesterSlashings) Serialize(spec *common.Spec, w *codec.EncodingWriter) error {
